@@ -78,6 +78,8 @@ type frame struct {
 	recvSeen map[int]bool
 	callResults map[string][]Val // results of contracted calls, per callee in execution order of the encoding
 	sset    map[string]map[string]string // string-slice value -> element key -> membership condition (see sset.go)
+	ssetVals map[string]map[string][]string // ... -> element key -> the values stored under that key
+	strSliceWritten *bool
 }
 
 type closureInfo struct {
